@@ -489,6 +489,56 @@ def rule_satisfy_loop(chk, prog):
         (r.bad if bad else r.ok)(ns + "::IncSolver::satisfy", fn.where(), bad or "%d flag stores, %d handling sites" % (len(flags), len(handled)))
 
 
+def rule_scaling_flag(chk, prog):
+    """slack() takes the unscaled shortcut when !needsScaling: every constraint whose ends are not both of scale 1 must carry the flag."""
+    from ..microai.interp import default_obj, Oracle, Vec, Box
+    import itertools
+    r = chk.rule("SCALING-FLAG", "Solver::Solver(vs, cs) followed by IncSolver::addConstraint(c), interpreted for all scale patterns of three "
+                 "variables (scale 1 or 2), every subset of initial constraints among the pairs and every later-added pair (both copies): "
+                 "each constraint that ends on a variable with scale != 1 has needsScaling == true (slack() and the verification scan use "
+                 "the unscaled positions otherwise, so a violated constraint is reported as satisfied)", floor=2)
+    for ns in ("vpsc", "Avoid"):
+        ctor = [f for f in prog.all_functions() if f.cls == ns + "::IncSolver" and f.kind == "ctor" and len(f.params) == 2]
+        addc = prog.fn(ns + "::IncSolver::addConstraint")
+        if len(ctor) != 1:
+            raise AnalysisBroken("%s::IncSolver(vs, cs) constructor not found" % ns)
+        n_cfg = 0
+        bad = None
+        pairs = [(0, 1), (1, 2), (0, 2)]
+        hooks = {ns + "::Blocks::Blocks": lambda it, n, env: None}
+        for scales in itertools.product((1, 2), repeat=3):
+            for init_mask in range(8):
+                for later in range(3):
+                    if init_mask & (1 << later):
+                        continue
+                    vs = [default_obj(prog, ns + "::Variable", {"id": i, "scale": Fraction(scales[i]), "weight": Fraction(1), "desiredPosition": Fraction(i),
+                                                               "offset": Fraction(0), "in": Vec([], ns + "::Constraint *"),
+                                                               "out": Vec([], ns + "::Constraint *")}) for i in range(3)]
+                    mk = lambda pr: default_obj(prog, ns + "::Constraint", {"left": vs[pr[0]], "right": vs[pr[1]], "gap": Fraction(1),
+                                                                            "needsScaling": True})
+                    init = [mk(pairs[k]) for k in range(3) if init_mask & (1 << k)]
+                    solver = default_obj(prog, ns + "::IncSolver", {})
+                    it = Interp(prog, Oracle([]), hooks={ns + "::Blocks::Blocks*": (lambda it_, n, env: None)})
+                    it.noop_new = True
+                    try:
+                        it.call(ctor[0], solver, None, None, arg_values=[Box(Vec(vs, ns + "::Variable *")), Box(Vec(init, ns + "::Constraint *"))])
+                        c = mk(pairs[later])
+                        c.f["needsScaling"] = True
+                        it.call(addc, solver, None, None, arg_values=[c])
+                    except (Unsupported, AssertFail) as e:
+                        raise AnalysisBroken("%s::Solver construction outside the interpreter subset: %s" % (ns, e))
+                    n_cfg += 1
+                    for con in init + [c]:
+                        l_, r_ = con.f["left"], con.f["right"]
+                        if (l_.f["scale"] != 1 or r_.f["scale"] != 1) and not con.f["needsScaling"]:
+                            bad = bad or ("scales %s, initial constraints %s, added later %s: the constraint between variables %d and %d "
+                                          "(scales %s, %s) has needsScaling == false" % (
+                                              list(scales), [pairs[k] for k in range(3) if init_mask & (1 << k)], pairs[later],
+                                              l_.f["id"], r_.f["id"], l_.f["scale"], r_.f["scale"]))
+        r.count(n_cfg)
+        (r.bad if bad else r.ok)(ns + "::Solver / IncSolver::addConstraint", ctor[0].where(), bad or "%d configurations" % n_cfg)
+
+
 def run(chk):
     prog = chk.load()
     from . import c02 as _c02
@@ -498,6 +548,7 @@ def run(chk):
     rule_merge_split(chk, prog)
     rule_solve_uses_satisfy(chk, prog)
     rule_slack_form(chk, prog)
+    rule_scaling_flag(chk, prog)
     rule_who_writes(chk, prog)
     r = chk.rule("SIBLING", "every function of libavoid's solver copy (libavoid/vpsc.{h,cpp}) is structurally identical to its libvpsc "
                  "counterpart after alpha-renaming, dropping assertions/casts and unifying the heap ADT (tables/siblings.json lists the "
